@@ -89,10 +89,11 @@ impl WorkspaceIndex {
 
     /// Re-analyze a file by reading it from disk.
     pub fn update_from_disk(&mut self, path: &Path) {
-        // A file that indexing leaves out (a test file) is only known here
-        // while the editor has it open. Reading it back from disk would make
-        // what its importers are told depend on whether it was ever opened.
-        if !is_ucg_source(path) {
+        // A file that indexing leaves out (a test file, a file outside of the
+        // workspace) is only known here while the editor has it open. Reading
+        // it back from disk would make what its importers are told depend on
+        // whether it was ever opened.
+        if !is_ucg_source(path) || !path.starts_with(&self.root) {
             self.files.remove(path);
             return;
         }
